@@ -145,6 +145,14 @@ def run_child(job, db_path, workdir, inject=None, timeout=60):
     return rc, parse_log(logfile, db_path), result
 
 
+def op_start(calls):
+    """Index of the first relevant call after the child's marker chmod (0 when there is no marker)."""
+    for i, c in enumerate(calls):
+        if c[0] in ("chmod", "fchmodat"):
+            return i + 1
+    return 0
+
+
 def address(calls, k):
     """strace address ('X', j) of the k-th relevant call: j-th invocation of syscall X in the whole trace."""
     return calls[k][0], calls[k][2]
@@ -198,7 +206,7 @@ def kill_sweep(res, s, op, pre_bytes, old, new, scratch, check_snapshots):
                 os.unlink(p_)
 
     mon.snaps.append(("<child ran to completion>", kernel_bytes(db), _sibs()))
-    for k in range(len(calls)):
+    for k in range(op_start(calls), len(calls)):
         name, j = address(calls, k)
         if name not in MUTATING:
             # dying before a call that cannot change the file leaves the state reached by the calls before it
@@ -255,6 +263,8 @@ def child_main():
     try:
         s = Session(job["cfg"], _S(), path=job["path"])
         result["stage"] = "opened"
+        # marker syscall: everything after it belongs to the operation itself
+        os.chmod(job["path"], os.stat(job["path"]).st_mode & 0o777)
         out = s.do(op)
         result["stage"] = "op-done"
         result["exc"] = None if out.exc is None else [type(out.exc).__name__, str(out.exc)[:200], isinstance(out.exc, OSError)]
